@@ -8,7 +8,7 @@ HERE = os.path.dirname(os.path.dirname(os.path.abspath(__file__)))
 CHECKS = {
  "C05": ("exploration",
          "runtime monitor: expected item computed from the source AST of generated programs, compared structurally with the parsed emitted item under several registration orders",
-         "Thousands of coincidence-free source programs (decided exactly from the source) are pushed through the scale-info model in 3 registration orders; for every definition the expected generic item (parameters by declared position, every field type with parameters in place, Box/Cow/VecDeque/compact normalisations, one trailing marker naming exactly the unused parameters, variant indices) is compared with what the generator emitted, and all orders must agree.",
+         "Thousands of coincidence-free source programs (decided exactly from the source) are pushed through the scale-info model in 3 registration orders; for every definition the expected generic item (parameters by declared position, every field type with parameters in place, Box/Cow/VecDeque/compact normalisations, one trailing marker naming exactly the unused parameters, variant indices) is compared with what the generator emitted; all orders must agree, and so must the route through ensure_unique_type_paths followed by generation.",
          "Trusted: the scale-info model (corpus-checked against real scale-info) and the expectation builder (about 150 lines, written from the normalisations named in the statement).",
          "DESIGN.md section 6 C05"),
  "C06": ("exploration",
@@ -18,17 +18,17 @@ CHECKS = {
          "DESIGN.md section 6 C06"),
  "C07": ("exploration",
          "runtime monitor: differential generation without/with rules plus an executable specification of the rewrite applied to every type expression",
-         "For thousands of (registry, rule set) pairs over every rule form the module generated with the rules must equal the specification rewrite of the module generated without them, field by field and for resolve_type_path of every id; substituted items must be absent and no reference may survive.",
+         "For thousands of (registry, rule set) pairs over every rule form the module generated with the rules must equal the specification rewrite of the module generated without them, field by field and for resolve_type_path of every id; substituted items must be absent and no reference may survive. Rules are registered by insert, by one extend call or by insert_if_not_exists, through the struct's fields or the settings' builder methods; rule parameters are also named like the generator's own (_0, _1, ..).",
          "Trusted: the syn-level rewrite (about 100 lines from the statement). Sources with skipped parameters are excluded from rules with declared generics and counted.",
          "DESIGN.md section 6 C07"),
  "C08": ("exploration",
          "runtime monitor: parsed derive/attribute sets of every emitted item against a must/may reachability sandwich computed from the emitted code graph and the registry graph",
-         "Every registration uses names unique to it, so each derive on each item is attributable; items must carry global + own + recursive-from-ancestors (closure in generated code) and nothing outside the registry-graph closure; CompactAs is required / forbidden by the single-unsigned-field rule.",
+         "Every registration uses names unique to it, so each derive on each item is attributable; items must carry global + own + recursive-from-ancestors (closure in generated code) and nothing outside the registry-graph closure; CompactAs is required / forbidden by the single-unsigned-field rule, on the rendered module and on the intermediate representation (create_type_ir) for single-member structs over every primitive kind incl. the 256-bit ones.",
          "Trusted: the two reachability closures; the sandwich makes the monitor never demand more than the statement.",
          "DESIGN.md section 6 C08"),
  "C09": ("exploration",
          "runtime monitor: all 2^6 switch combinations per registry, token-tree normaliser for the governed tokens, equality of all normalised outputs, plus per-switch honoured checks",
-         "Each registry (including one hand-built program with every heap-allocated prelude type at every kind of position) is generated under all 64 combinations; doc/codec attributes, alloc prefix, root, compact and bits paths are normalised away and all outputs must coincide; `std` must not occur with a custom alloc path, docs must equal the registry's, codec attributes must be absent/present as switched.",
+         "Each registry (including one hand-built program with every heap-allocated prelude type at every kind of position) is generated under all 64 combinations; doc/codec attributes, alloc prefix, root, compact and bits paths are normalised away and all outputs must coincide; `std` must not occur with a custom alloc path, docs must equal the registry's, codec attributes must be absent/present as switched (also on standalone structs built from member lists). Four more combinations with third values on the same thread (nothing remembered from an earlier generation may reappear), and the root named like a segment of the registry's own paths (must equal another root renamed, token for token).",
          "Trusted: the normaliser; identifiers used for the switch values occur nowhere else in the output by construction.",
          "DESIGN.md section 6 C09"),
  "C11": ("exploration",
@@ -38,7 +38,7 @@ CHECKS = {
          "DESIGN.md section 6 C11"),
  "C12": ("exploration",
          "runtime monitor: third-party encode/decode round trip (scale-value) of every returned example, seed determinism, Err only on cyclic/empty types, hook-based progress bound",
-         "Hundreds of thousands of (registry, id, seed) triples incl. all primitives, all bit-sequence formats, cycles, empty enums and Polkadot; known findings: char and 256-bit primitives cannot be encoded by the pinned scale-encode.",
+         "Hundreds of thousands of (registry, id, seed) triples incl. all primitives, all bit-sequence formats, cycles, empty enums and Polkadot; plus a hand-written gallery of recursive types that can terminate, used several times from one root; the seeded and the seedless entry point; resolve calls are bounded by the oracle's unfolding size of the type (bounded progress). Known findings: char and 256-bit primitives cannot be encoded by the pinned scale-encode.",
          "Trusted: scale-value/scale-encode/scale-decode as named by the statement.",
          "DESIGN.md section 6 C12"),
  "C13": ("exploration",
@@ -48,7 +48,7 @@ CHECKS = {
          "DESIGN.md section 6 C13"),
  "C14": ("exploration",
          "runtime monitor: syn::Expr lockstep reader of every returned example against the registry and the emitted item",
-         "Every id x seed x path setting of thousands of registries: the example must parse and satisfy exactly the enumerated clauses (path, field names and arity incl. marker, literal types, tuple/array/vec arity, same seed same tokens).",
+         "Every id x seed x path setting of thousands of registries: the example must parse and satisfy exactly the enumerated clauses (path, field names and arity incl. marker, literal types, tuple/array/vec arity, same seed same tokens); resolve calls are bounded by the oracle's unfolding size (recursion yields an error, not a crash); identity middlewares must not change the example; the seedless entry point is judged by the same clauses.",
          "Trusted: the reader; entries merged under a parameter coincidence have no item of their own and are skipped and counted.",
          "DESIGN.md section 6 C14"),
  "C16": ("exploration",
